@@ -103,3 +103,45 @@ V('C02', 'include-witness-default-false', CORE, "def stream_serialize(self, f, i
 V('C02', 'mutable-tx-own-txid', CORE, "    @classmethod\n    def from_tx(cls, tx):\n        \"\"\"Create a fully mutable copy of a pre-existing transaction\"\"\"", "    def GetTxid(self):\n        return Hash(self.serialize())\n\n    @classmethod\n    def from_tx(cls, tx):\n        \"\"\"Create a fully mutable copy of a pre-existing transaction\"\"\"", 'C02.T4')
 V('C02', 'null-witness-ignores-empty-items', SCRIPT, 'return len(self.stack) == 0', 'return not any(self.stack)', 'C02.W1', scope='CScriptWitness.is_null')
 V('C02', 'gethash-single-sha', SER, 'return Hash(self.serialize())', 'return hashlib.sha256(self.serialize()).digest()', 'C02.T2', scope='Serializable.GetHash')
+
+
+def V2(prop, name, edits, expect):
+    VARIANTS.append(dict(prop=prop, name=name, expect=expect, edits=[dict(file=f, old=o, new=n, scope=s) for f, o, n, s in edits]))
+
+
+# ------------------------------------------------------------------------------------------------ C03
+V('C03', 'none-mask-0x0f', SCRIPT, "if (hashtype & 0x1f) == SIGHASH_NONE:", "if (hashtype & 0x0f) == SIGHASH_NONE:", 'C03.D1', scope='RawSignatureHash')
+V2('C03', 'none-single-constants-swapped', [(SCRIPT, 'SIGHASH_NONE = 2', 'SIGHASH_NONE = 3', None), (SCRIPT, 'SIGHASH_SINGLE = 3', 'SIGHASH_SINGLE = 2', None)], 'C03.D1')
+V('C03', 'none-zeroes-own-sequence', SCRIPT, "            if i != inIdx:\n                txtmp.vin[i].nSequence = 0\n\n    elif", "            txtmp.vin[i].nSequence = 0\n\n    elif", 'C03.D1', scope='RawSignatureHash')
+V('C03', 'witness-not-reset', SCRIPT, "    txtmp.wit = bitcoin.core.CTxWitness()\n", "", 'C03.D1', scope='RawSignatureHash')
+V('C03', 'edits-caller-transaction', SCRIPT, 'txtmp = bitcoin.core.CMutableTransaction.from_tx(txTo)', 'txtmp = txTo', ['C03.A0', 'C03.RO'], scope='RawSignatureHash')
+V('C03', 'hashtype-two-bytes', SCRIPT, 's += struct.pack(b"<i", hashtype)', 's += struct.pack(b"<H", hashtype)', 'C03.D1', scope='RawSignatureHash')
+V('C03', 'missing-input-without-error', SCRIPT, 'return (HASH_ONE, "inIdx %d out of range (%d)" % (inIdx, len(txTo.vin)))', 'return (HASH_ONE, None)', 'C03.D1', scope='RawSignatureHash')
+V('C03', 'single-one-blank-too-many', SCRIPT, 'for i in range(outIdx):', 'for i in range(outIdx + 1):', 'C03.D1', scope='RawSignatureHash')
+V('C03', 'scriptsig-blanked-with-zero-byte', SCRIPT, "txin.scriptSig = b''", "txin.scriptSig = b'\\x00'", 'C03.D1', scope='RawSignatureHash')
+V('C03', 'codeseparators-kept', SCRIPT, 'FindAndDelete(script, CScript([OP_CODESEPARATOR]))', 'script', 'C03.D1', scope='RawSignatureHash')
+V('C03', 'wrapper-swallows-error', SCRIPT, "    if err is not None:\n        raise ValueError(err)\n    return h", "    return h", 'C03.P1', scope='SignatureHash')
+V('C03', 'single-missing-output-off-by-one', SCRIPT, 'if outIdx >= len(txtmp.vout):', 'if outIdx > len(txtmp.vout):', 'C03.D1', scope='RawSignatureHash')
+V('C03', 'anyonecanpay-keeps-first-input', SCRIPT, "        tmp = txtmp.vin[inIdx]\n        txtmp.vin = []", "        tmp = txtmp.vin[0]\n        txtmp.vin = []", 'C03.D1', scope='RawSignatureHash')
+V('C03', 'hash-one-constant', SCRIPT, "HASH_ONE = b'\\x01\\x00", "HASH_ONE = b'\\x00\\x01", 'C03.D1', scope='RawSignatureHash')
+V('C03', 'wrapper-raises-runtimeerror', SCRIPT, "        raise ValueError(err)", "        raise RuntimeError(err)", 'C03.P1', scope='SignatureHash')
+V('C03', 'anyonecanpay-bit', SCRIPT, 'SIGHASH_ANYONECANPAY = 0x80', 'SIGHASH_ANYONECANPAY = 0x40', 'C03.D1')
+
+# ------------------------------------------------------------------------------------------------ C20
+V('C20', 'seed-multiplier', BLOOM, '0xFBA4C795', '0xFBA4C796', 'C20.S1', scope='CBloomFilter.bloom_hash')
+V('C20', 'contains-skips-last-function', BLOOM, 'for i in range(0, self.nHashFuncs):\n            nIndex = self.bloom_hash(i, elem)\n            if not', 'for i in range(0, self.nHashFuncs - 1):\n            nIndex = self.bloom_hash(i, elem)\n            if not', 'C20.N1', scope='CBloomFilter.contains')
+V('C20', 'insert-mask-index-3-bits', BLOOM, 'self.vData[nIndex >> 3] |= self.__bit_mask[7 & nIndex]', 'self.vData[nIndex >> 3] |= self.__bit_mask[3 & nIndex]', 'C20.N1', scope='CBloomFilter.insert')
+V('C20', 'revert-F7-contains', BLOOM, "        if len(self.vData) == 0:\n            # Avoid divide-by-zero (CVE-2013-5700); an empty filter matches everything\n            return True\n", "", 'C20.G1', scope='CBloomFilter.contains')
+V('C20', 'revert-F7-insert', BLOOM, "        if len(self.vData) == 0:\n            # Avoid divide-by-zero (CVE-2013-5700)\n            return\n", "", 'C20.G1', scope='CBloomFilter.insert')
+V('C20', 'hash-function-cap-51', BLOOM, 'MAX_HASH_FUNCS = 50', 'MAX_HASH_FUNCS = 51', 'C20.K1')
+V('C20', 'size-cap-applied-to-bytes-in-bits', BLOOM, 'self.MAX_BLOOM_FILTER_SIZE * 8) / 8))', 'self.MAX_BLOOM_FILTER_SIZE * 8)))', 'C20.K1', scope='CBloomFilter.__init__')
+V('C20', 'murmur-c2', BLOOM, 'c2 = 0x1b873593', 'c2 = 0x1b873595', 'C20.M1', scope='MurmurHash3')
+V('C20', 'murmur-rotation', BLOOM, 'h1 = _ROTL32(h1, 13)', 'h1 = _ROTL32(h1, 15)', 'C20.M1', scope='MurmurHash3')
+V('C20', 'murmur-final-shift', BLOOM, 'h1 ^= (h1 & 0xFFFFFFFF) >> 13', 'h1 ^= (h1 & 0xFFFFFFFF) >> 16', 'C20.M1', scope='MurmurHash3')
+V('C20', 'murmur-length-byte', BLOOM, 'h1 ^= len(vDataToHash) & 0xFFFFFFFF', 'h1 ^= len(vDataToHash) & 0xFF', 'C20.M1', scope='MurmurHash3')
+V('C20', 'murmur-tail-shift', BLOOM, 'k1 ^= vDataToHash[j+1] << 8', 'k1 ^= vDataToHash[j+1] << 16', 'C20.M1', scope='MurmurHash3')
+V('C20', 'wire-flags-32bit', BLOOM, "__struct = struct.Struct(b'<IIB')", "__struct = struct.Struct(b'<III')", 'C20.L1')
+V('C20', 'reader-drops-tweak', BLOOM, 'deserialized.nTweak = nTweak', 'deserialized.nTweak = 0', 'C20.L1', scope='CBloomFilter.stream_deserialize')
+V('C20', 'modulus-bytes-not-bits', BLOOM, '% (len(self.vData) * 8)', '% (len(self.vData))', 'C20.S1', scope='CBloomFilter.bloom_hash')
+V('C20', 'insert-full-shortcut-widened', BLOOM, "        if len(self.vData) == 1 and self.vData[0] == 0xff:\n            return\n", "        if len(self.vData) >= 1 and self.vData[0] == 0xff:\n            return\n", 'C20.N1', scope='CBloomFilter.insert')
+V('C20', 'bit-mask-table', BLOOM, '[0x01, 0x02, 0x04, 0x08, 0x10, 0x20, 0x40, 0x80]', '[0x01, 0x02, 0x04, 0x08, 0x10, 0x20, 0x40, 0x40]', 'C20.N1')
